@@ -78,6 +78,39 @@ class GdbShaped(_Base):
         return dict(dialect='gdb-shaped', specs=specs)
 
 
+class GdbMode(_Base):
+    """the same histories as libwayland closures through the real GDB plugin and extract.py on the symbolic gdb stand-in: the
+    object table, the attribution of every mention and the shown line must be the model's in GDB mode too"""
+    name = 'gdb-mode'
+    kind = 'given'
+
+    def examples(self, tier):
+        return 120 if tier == 'quick' else 14 * 1000
+
+    def gen(self, d, tier):
+        specs = histgen.history(d, nconn=d.int(1, 2), nmsg=d.int(5, 36), tagged=True, profile=dict(reuse=0.7, server_reuse=0.5, weights=dict(
+            delete=16, bind=14, message=40, server_event=10, sync=6, enum=4, retype=8, twins=10, server_retype=6)))
+        return dict(dialect='gdb-shaped', specs=specs, vprefix=d.choice(['', '', '3']))
+
+    def execute(self, case):
+        res = Result()
+        res.evals = 0
+        tr = tracker.GdbTracker(case.get('vprefix', ''))
+        try:
+            for spec in case['specs']:
+                try:
+                    msg, rec = tr.apply(spec)
+                except tracker.GdbModeLost as e:
+                    res.bad('gdb-mode:message-lost', str(e))
+                    break
+                for chk in CHECKS:
+                    chk(tr, msg, rec, res, ':gdb-mode')
+        finally:
+            tr.close()
+        self.finish(case, res)
+        return res
+
+
 class FreshProcess(_Base):
     """what a line says about an object must not depend on which other lines were displayed before it: the history is shown
     by a fresh main.py process once in full and once behind a filter that hides earlier incarnations; every line of the
@@ -156,7 +189,7 @@ class C02(Prop):
             'filter; the full run is compared with the model line by line, every filtered line must read exactly as in the full run.')
     assumptions = ['well-formed histories as constructed by histgen (client ids reused only after delete_id)',
                    'reference model of DESIGN appendix B; enum labels and times are excluded here (C07, C16)']
-    stages = [Machine(), DeepReuse(), GdbShaped(), FreshProcess()]
+    stages = [Machine(), DeepReuse(), GdbShaped(), GdbMode(), FreshProcess()]
 
 
 PROP = C02()
